@@ -473,4 +473,83 @@ theorem gen_packLocatorParse (bs : Bytes) (h32 : bs.length = 32) :
   simp only [Generated.packLocatorParse, PackLocator.decode, t0, t16, t24, Outcome.bind_ok'', hlen, if_false]
   rfl
 
+/-! ### the pack info -/
+
+theorem takePString_at (bs : Bytes) (o : Nat) (h : o < bs.length) :
+    takePString (bs.drop o) =
+      if (bs.getD o 0).toNat ≤ bs.length - (o + 1) then
+        .ok (slice bs (o + 1) (bs.getD o 0).toNat, bs.drop (o + 1 + (bs.getD o 0).toNat))
+      else .err .format := by
+  unfold takePString
+  rw [List.drop_eq_getElem_cons h]
+  have hg : bs.getD o 0 = bs[o] := by simp [List.getD, List.getElem?_eq_getElem h]
+  simp only [pstringDecode, hg, List.length_drop]
+  by_cases hl : bs[o].toNat ≤ bs.length - (o + 1)
+  · simp [hl, slice, List.drop_drop]
+  · simp [hl]
+
+theorem packKindParse_at (bs : Bytes) (o : Nat) (h : o < bs.length) :
+    Generated.packKindParse (bs.drop o) =
+      match PackKind.ofByte (bs.getD o 0) with
+      | some k => .ok (k, bs.drop (o + 1))
+      | none => .err .format := by
+  unfold Generated.packKindParse
+  rw [takeLE_at bs o 1 (by omega), leNat_slice_one bs o h]
+  simp only [Outcome.bind_ok'']
+  by_cases h1 : List.getD bs o 0 = 109
+  · rw [h1]; rfl
+  · by_cases h2 : List.getD bs o 0 = 100
+    · rw [h2]; rfl
+    · by_cases h3 : List.getD bs o 0 = 99
+      · rw [h3]; rfl
+      · by_cases h4 : List.getD bs o 0 = 67
+        · rw [h4]; rfl
+        · have n1 : (List.getD bs o 0).toNat ≠ 109 := fun h => h1 (UInt8.toNat_inj.mp h)
+          have n2 : (List.getD bs o 0).toNat ≠ 100 := fun h => h2 (UInt8.toNat_inj.mp h)
+          have n3 : (List.getD bs o 0).toNat ≠ 99 := fun h => h3 (UInt8.toNat_inj.mp h)
+          have n4 : (List.getD bs o 0).toNat ≠ 67 := fun h => h4 (UInt8.toNat_inj.mp h)
+          simp only [PackKind.ofByte, h1, h2, h3, h4, if_false]
+
+
+def tupleToInfo (r : Bytes × Nat × Nat × Nat × PackKind × Nat × Nat × Bytes) : PackInfo :=
+  ⟨r.1, r.2.1, (r.2.2.1 / 65536, r.2.2.1 % 65536), r.2.2.2.1, r.2.2.2.2.1, r.2.2.2.2.2.1, r.2.2.2.2.2.2.1, r.2.2.2.2.2.2.2⟩
+
+/-- **A pack info is parsed as the source parses it**: `PackInfo::parse` (with `PackKind::parse`), translated
+    on every run into a sequential parser — uuid, size, check-info position, pack id, kind byte, group, free-data
+    id, then the location as a p-string **and the rest of the 213-byte field skipped** — is `PackInfo.decode` of
+    the model on every 252-byte block.  A length byte beyond the field is a format error of the p-string read;
+    the subtraction `213 - len` (a panic on underflow in the translation) is never reached with a negative
+    result. -/
+theorem gen_packInfoParse (bs : Bytes) (h252 : bs.length = 252) :
+    (Generated.packInfoParse bs).map' (fun r => tupleToInfo r.1) = PackInfo.decode bs := by
+  have t0 := takeBytes_at bs 0 16 (by omega)
+  have t16 := takeLE_at bs 16 8 (by omega)
+  have t24 := takeLE_at bs 24 8 (by omega)
+  have t32 := takeLE_at bs 32 2 (by omega)
+  have t34 := packKindParse_at bs 34 (by omega)
+  have t35 := takeLE_at bs 35 1 (by omega)
+  have t36 := takeLE_at bs 36 2 (by omega)
+  have t38 := takePString_at bs 38 (by omega)
+  have k35 := leNat_slice_one bs 35 (by omega)
+  simp only [List.drop_zero, Nat.zero_add, Nat.reduceAdd, h252, Nat.reduceSub] at t0 t16 t24 t32 t34 t35 t36 t38
+  have hlen : ¬ bs.length < 252 := by omega
+  unfold Generated.packInfoParse PackInfo.decode
+  simp only [t0, t16, t24, t32, Outcome.bind_ok'', hlen, if_false, t34]
+  cases hk : PackKind.ofByte (List.getD bs 34 0) with
+  | none => rfl
+  | some kind =>
+    simp only [Outcome.bind_ok'', t35, t36, k35, t38]
+    generalize hL : (List.getD bs 38 0).toNat = L
+    by_cases hl : L ≤ 213
+    · have hl' : ¬ L > Consts.locationSkip := by simp only [Consts.locationSkip]; omega
+      have hsl : (slice bs 39 L).length = L := by
+        simp only [slice, List.length_take, List.length_drop, h252]; omega
+      have tsk := takeBytes_at bs (39 + L) (213 - L) (by omega)
+      simp only [hl, hl', if_true, if_false, Outcome.bind_ok'', hsl, tsk, sizedOffsetDecode]
+      rfl
+    · have hl' : L > Consts.locationSkip := by simp only [Consts.locationSkip]; omega
+      simp only [hl, hl', if_true, if_false]
+      rfl
+
+
 end Jubako
